@@ -264,8 +264,11 @@ def _ident(o):
 
 
 def raw_dump(dirpath, f, depth):
+    return raw_dump_file(os.path.join(dirpath, f + ".cool"), depth)
+
+
+def raw_dump_file(fn, depth):
     """DFS over hard links only (links listed in byte order), soft/external links as leaves"""
-    fn = os.path.join(dirpath, f + ".cool")
     if not os.path.exists(fn):
         return None
     out = []
